@@ -55,13 +55,14 @@ Qed.
    its parents hold NOW (same interval); a source holds the batch its stream delivered in this interval *)
 Theorem tick_inv g env t st :
   wf g -> length (ns st) = length g -> (forall i s, nth_error (ns st) i = Some s -> ctime s < t) ->
+  live g t (delivered g env st) ->
   exists st', tick g env t st = Some st' /\
     length (ns st') = length g /\
     (forall i s, nth_error (ns st') i = Some s -> ctime s = t) /\
     (forall i nd, nth_error g i = Some nd ->
        crdd_at st' i = node_val nd t (delivered g env st i) (map crdd (ns st'))).
 Proof.
-  intros Hwf Hlen Hlt. exists (tick_spec g env t st).
+  intros Hwf Hlen Hlt Hlive. exists (tick_spec g env t st).
   split; [apply tick_refines; auto|]. split; [apply tick_spec_len|].
   split; [intros i s; apply tick_spec_time|].
   intros i nd Hg. rewrite crdd_at_map, tick_spec_crdds. apply denot_eqn; auto.
@@ -143,13 +144,14 @@ Qed.
 (* pop_once / fire_once for the registered order *)
 Theorem tick_events g env t st :
   wf g -> length (ns st) = length g -> (forall i s, nth_error (ns st) i = Some s -> ctime s < t) ->
+  live g t (delivered g env st) ->
   exists st' evs, tick g env t st = Some st' /\ log st' = log st ++ evs /\
     (forall i, pops i evs = (if is_src g i then 1 else 0)%nat) /\
     (forall i, fires i evs = (if is_fn g i then 1 else 0)%nat) /\
     (forall j tt args, In (EvFire j tt args) evs ->
        tt = t /\ exists nd, nth_error g j = Some nd /\ args = map (crdd_at st') (parents nd)).
 Proof.
-  intros Hwf Hlen Hlt.
+  intros Hwf Hlen Hlt Hlive.
   exists (tick_spec g env t st), (map (event_of g env t st) (seq 0 (length g))).
   split; [apply tick_refines; auto|]. split; [reflexivity|].
   destruct (perm_props (seq 0 (length g)) (length g) (Permutation_refl _)) as [Hnd [Hr Hc]].
@@ -163,14 +165,15 @@ Qed.
 (* the same for ANY order in which the callback might step the registered nodes *)
 Theorem any_order_once g env t st order :
   wf g -> length (ns st) = length g -> (forall i s, nth_error (ns st) i = Some s -> ctime s < t) ->
+  live g t (delivered g env st) ->
   (forall i, In i order -> (i < length g)%nat) -> (forall i, (i < length g)%nat -> In i order) ->
   exists st' evs, step_all g env t order st = Some st' /\
     ns st' = ns (tick_spec g env t st) /\ log st' = log st ++ evs /\
     (forall i, pops i evs = (if is_src g i then 1 else 0)%nat) /\
     (forall i, fires i evs = (if is_fn g i then 1 else 0)%nat).
 Proof.
-  intros Hwf Hlen Hlt Hr Hc.
-  destruct (any_order_refines g env t st Hwf Hlen Hlt order Hr Hc) as [st' [dl [E [Hns [Hlog HP]]]]].
+  intros Hwf Hlen Hlt Hlive Hr Hc.
+  destruct (any_order_refines g env t st Hwf Hlen Hlt Hlive order Hr Hc) as [st' [dl [E [Hns [Hlog HP]]]]].
   exists st', (map (event_of g env t st) dl). split; auto. split; auto. split; auto.
   destruct (perm_props dl (length g) HP) as [Hnd [Hr' Hc']].
   split; intros i; apply (events_once g env t st _ Hnd Hr' Hc' i).
@@ -178,14 +181,22 @@ Qed.
 
 
 (* ---------- histories ---------- *)
-Lemma run_hist_refines g : wf g -> forall h c st,
+Lemma delivered_defined g env st : length (ns st) = length g -> src_defined g (delivered g env st).
+Proof.
+  intros Hlen i k Hg. unfold delivered. rewrite Hg.
+  destruct (nth_error (ns st) i) eqn:E; [discriminate|].
+  apply nth_error_None in E. assert (i < length g)%nat by (apply nth_error_Some; congruence). lia.
+Qed.
+
+Lemma run_hist_refines g : wf g -> always_live g -> forall h c st,
   length (ns st) = length g -> (forall i s, nth_error (ns st) i = Some s -> ctime s <= c) ->
   increasing c h -> run_hist g h st = Some (spec_hist g h st).
 Proof.
-  intros Hwf. induction h as [|[t env] h IH]; intros c st Hlen Hc Hinc; simpl; auto.
+  intros Hwf Hal. induction h as [|[t env] h IH]; intros c st Hlen Hc Hinc; simpl; auto.
   destruct Hinc as [Hct Hinc].
   rewrite tick_refines; auto.
   2:{ intros i s Hs. specialize (Hc i s Hs). lia. }
+  2:{ apply Hal. apply delivered_defined; auto. }
   apply (IH t).
   - apply tick_spec_len.
   - intros i s Hs. apply tick_spec_time in Hs. lia.
@@ -201,9 +212,9 @@ Proof.
 Qed.
 
 Theorem run_hist_init g h :
-  wf g -> increasing 0 h -> run_hist g h (init g) = Some (spec_hist g h (init g)).
+  wf g -> always_live g -> increasing 0 h -> run_hist g h (init g) = Some (spec_hist g h (init g)).
 Proof.
-  intros Hwf Hinc. apply (run_hist_refines g Hwf h 0); auto.
+  intros Hwf Hal Hinc. apply (run_hist_refines g Hwf Hal h 0); auto.
   - apply init_len.
   - apply init_time.
 Qed.
@@ -348,9 +359,10 @@ Qed.
 (* closed form: after a tick every node holds a function of the batches delivered in THIS interval only *)
 Theorem tick_denot g env t st :
   wf g -> length (ns st) = length g -> (forall i s, nth_error (ns st) i = Some s -> ctime s < t) ->
+  live g t (delivered g env st) ->
   exists st', tick g env t st = Some st' /\
     forall i, (i < length g)%nat -> crdd_at st' i = nth i (denot g t (delivered g env st)) RNone.
 Proof.
-  intros Hwf Hlen Hlt. exists (tick_spec g env t st). split; [apply tick_refines; auto|].
+  intros Hwf Hlen Hlt Hlive. exists (tick_spec g env t st). split; [apply tick_refines; auto|].
   intros i Hi. rewrite crdd_at_map, tick_spec_crdds. reflexivity.
 Qed.
